@@ -15,7 +15,8 @@ for id in "$@"; do
   d=/verif/seeded/$id; prop=${id%%-*}
   owner=$(python3 -c "
 import json,re
-m=json.load(open('$d/meta.json')); mm=re.search(r'CAUGHT by (C[0-9]+)', m['result']); print(mm.group(1) if mm else '$prop')")
+import os
+m=json.load(open('$d/meta.json')) if os.path.exists('$d/meta.json') else {'result':''}; mm=re.search(r'CAUGHT by (C[0-9]+)', m['result']); print(mm.group(1) if mm else '$prop')")
   git -C "$slot/repo" checkout -q -- . ; git -C "$slot/repo" clean -fdq -- src tests 2>/dev/null
   if ! git -C "$slot/repo" apply "$d/patch.diff"; then echo "$id PATCH-DOES-NOT-APPLY" >> "$out"; continue; fi
   if ! ( cd "$slot/dsim" && cargo build --release --offline >build.log 2>&1 ); then echo "$id HARNESS-ERROR build failed" >> "$out"; continue; fi
